@@ -131,6 +131,19 @@ def run_case(case, obs) -> None:  # noqa: C901, PLR0912, PLR0915
         obs.violation(f"not-reversible:{iname}:{sname}",
                       f"{case['n']} steps, dir flip, {case['n']} steps returns with error {err:.3e} > {tol:.3e}; eps={eps:.4g} "
                       f"frac={case['frac']:.3g} sys={spec} int={ispec}")
+    # the step size of a live integrator is reassigned by the adapters: a reused integrator must step exactly like a
+    # freshly constructed one with the new step size
+    eps2 = eps * float(rng.uniform(0.3, 1.2))
+    integ.step_size = eps2
+    fresh = zoo.make_integrator(m, dict(ispec, step_size=eps2))
+    try:
+        a = integ.step(m.state(q, p, case["dir"]))
+        b = fresh.step(m.state(q, p, case["dir"]))
+        obs.count("reused_integrator_checks")
+        if not (np.array_equal(a.pos, b.pos) and np.array_equal(a.mom, b.mom)):
+            obs.violation(f"stale-after-step-size-change:{iname}", f"after integrator.step_size was reassigned a step differs from a fresh integrator's; sys={spec} int={ispec}")
+    except IntegratorError:
+        pass
     fc = "small" if case["frac"] < 0.05 else ("mid" if case["frac"] < 0.4 else "large")
     obs.token(spec["sys"], spec.get("metric", spec.get("constr", "-")), ispec["int"], intgen.stages(ispec),
               ispec.get("solver", "-"), ispec.get("tight"), fc, case["dir"])
